@@ -12,6 +12,7 @@ mod c07;
 mod c14;
 mod c10;
 mod c11;
+mod c11csv;
 mod c15;
 mod c17;
 mod c18;
